@@ -117,6 +117,11 @@ pub fn base_env() -> EnvSpec {
     EnvSpec { version: 2, lock_time: 100, inputs: vec![base_in()], outputs: vec![base_out(), OutSpec { value: ValK::Explicit(3300), fee: true, ..base_out() }], ix: 0, merkle_steps: 0, leaf_version_odd: false, script_cmr: 0, genesis: 0x0f }
 }
 
+/// non-palindromic 32-byte pattern, so that a byte-order mix-up is visible
+pub fn ramp(x: u8) -> [u8; 32] {
+    core::array::from_fn(|i| x.wrapping_add((i as u8).wrapping_mul(7)))
+}
+
 // two valid curve x-coordinates (G and 2G)
 const X1: [u8; 32] = [0x79, 0xBE, 0x66, 0x7E, 0xF9, 0xDC, 0xBB, 0xAC, 0x55, 0xA0, 0x62, 0x95, 0xCE, 0x87, 0x0B, 0x07, 0x02, 0x9B, 0xFC, 0xDB, 0x2D, 0xCE, 0x28, 0xD9, 0x59, 0xF2, 0x81, 0x5B, 0x16, 0xF8, 0x17, 0x98];
 const X2: [u8; 32] = [0xC6, 0x04, 0x7F, 0x94, 0x41, 0xED, 0x7D, 0x6D, 0x30, 0x45, 0x40, 0x6E, 0x95, 0xC0, 0x7C, 0xD8, 0x5C, 0x77, 0x8E, 0x4B, 0x8C, 0xEF, 0x3C, 0xA7, 0xAB, 0xAC, 0x09, 0xB9, 0x5C, 0x70, 0x9E, 0xE5];
@@ -131,7 +136,7 @@ fn commit(prefix_even: u8, sel: u8) -> [u8; 33] {
 pub fn asset(k: AssetK) -> Asset {
     match k {
         AssetK::Null => Asset::Null,
-        AssetK::Explicit(x) => Asset::Explicit(AssetId::from_byte_array([x; 32])),
+        AssetK::Explicit(x) => Asset::Explicit(AssetId::from_byte_array(ramp(x))),
         AssetK::Confidential(s) => Asset::from_commitment(&commit(0x0a, s)).expect("valid asset commitment"),
     }
 }
@@ -145,7 +150,7 @@ pub fn value(k: ValK) -> CValue {
 pub fn nonce(k: NonceK) -> Nonce {
     match k {
         NonceK::Null => Nonce::Null,
-        NonceK::Explicit(x) => Nonce::Explicit([x; 32]),
+        NonceK::Explicit(x) => Nonce::Explicit(ramp(x)),
         NonceK::Confidential(s) => Nonce::from_commitment(&commit(0x02, s)).expect("valid nonce commitment"),
     }
 }
@@ -207,7 +212,7 @@ pub fn control_block_bytes(steps: usize, odd: bool) -> Vec<u8> {
     let mut v = vec![0xbe | u8::from(odd)];
     v.extend([0xeb, 0x04, 0xb6, 0x8e, 0x9a, 0x26, 0xd1, 0x16, 0x04, 0x6c, 0x76, 0xe8, 0xff, 0x47, 0x33, 0x2f, 0xb7, 0x1d, 0xda, 0x90, 0xff, 0x4b, 0xef, 0x53, 0x70, 0xf2, 0x52, 0x26, 0xd3, 0xbc, 0x09, 0xfc]);
     for s in 0..steps {
-        v.extend([0x40 + s as u8; 32]);
+        v.extend(ramp(0x40 + s as u8));
     }
     v
 }
@@ -224,15 +229,15 @@ pub fn build(spec: &EnvSpec) -> Built {
         }
         let asset_issuance = match i.issuance {
             IssK::None => AssetIssuance::null(),
-            IssK::New => AssetIssuance { asset_blinding_nonce: AssetBlindingNonce::NEW_ISSUANCE, asset_entropy: AssetEntropy::from_byte_array([0x31 + k as u8; 32]), amount: value(i.iss_amount), inflation_keys: value(i.iss_keys) },
-            IssK::Reissue => AssetIssuance { asset_blinding_nonce: AssetBlindingNonce::from_byte_array([0x21; 32]), asset_entropy: AssetEntropy::from_byte_array([0x32 + k as u8; 32]), amount: value(i.iss_amount), inflation_keys: value(i.iss_keys) },
+            IssK::New => AssetIssuance { asset_blinding_nonce: AssetBlindingNonce::NEW_ISSUANCE, asset_entropy: AssetEntropy::from_byte_array(ramp(0x31 + k as u8)), amount: value(i.iss_amount), inflation_keys: value(i.iss_keys) },
+            IssK::Reissue => AssetIssuance { asset_blinding_nonce: AssetBlindingNonce::from_byte_array(ramp(0x21)), asset_entropy: AssetEntropy::from_byte_array(ramp(0x32 + k as u8)), amount: value(i.iss_amount), inflation_keys: value(i.iss_keys) },
         };
         let pegin_witness = if i.pegin {
             use simplicity::bitcoin::hashes::Hash as _;
             PeginWitness::new(PeginData {
                 value: 5000,
-                asset_id: AssetId::from_byte_array([0x23; 32]),
-                genesis_hash: simplicity::bitcoin::BlockHash::from_byte_array([0x6f; 32]),
+                asset_id: AssetId::from_byte_array(ramp(0x23)),
+                genesis_hash: simplicity::bitcoin::BlockHash::from_byte_array(ramp(0x6f)),
                 claim_script: simplicity::bitcoin::ScriptBuf::from_bytes(vec![0x00, 0x14, 1, 2, 3, 4, 5, 6, 7, 8, 9, 10, 11, 12, 13, 14, 15, 16, 17, 18, 19, 20]),
                 transaction: vec![2, 0, 0, 0, 0, 0, 0, 0, 0, 0],
                 merkle_proof: vec![0u8; 80],
@@ -242,7 +247,7 @@ pub fn build(spec: &EnvSpec) -> Built {
             PeginWitness::EMPTY
         };
         input.push(TxIn {
-            previous_output: OutPoint { txid: Txid::from_byte_array([i.prev_txid; 32]), vout: i.vout },
+            previous_output: OutPoint { txid: Txid::from_byte_array(ramp(i.prev_txid)), vout: i.vout },
             is_pegin: i.pegin,
             script_sig: script(i.script_sig),
             sequence: Sequence::from_consensus(i.sequence),
@@ -270,8 +275,8 @@ pub fn build(spec: &EnvSpec) -> Built {
     let tx = Arc::new(Transaction { version: spec.version, lock_time: LockTime::from_consensus(spec.lock_time), input, output });
     let cbb = control_block_bytes(spec.merkle_steps, spec.leaf_version_odd);
     let control_block = ControlBlock::from_slice(&cbb).expect("control block");
-    let script_cmr = [spec.script_cmr; 32];
-    let genesis = [spec.genesis; 32];
+    let script_cmr = ramp(spec.script_cmr);
+    let genesis = ramp(spec.genesis);
     let annex = spec.inputs.get(spec.ix as usize).and_then(|i| i.annex.clone());
     let env = ElementsEnv::new(tx.clone(), utxos.clone(), spec.ix, Cmr::from_byte_array(script_cmr), control_block.clone(), annex, BlockHash::from_byte_array(genesis));
     Built { env, tx, utxos, control_block, control_block_bytes: cbb, script_cmr, genesis }
